@@ -69,7 +69,7 @@ def rule_iter_copy(cx, tier):
             insts.append((fn, tr))
     n_mc = len([1 for f, t in insts if t == "KotoIterator"])
     r.analysed = {"make_copy_impls": n_mc, "koto_copy_impls": len(insts) - n_mc}
-    r.floor("KotoIterator::make_copy implementations", n_mc, 40)
+    r.floor("KotoIterator::make_copy implementations", n_mc, 30)
     for fn, tr in insts:
         adt = _self_adt(cx, fn)
         if adt is None:
@@ -243,7 +243,7 @@ def rule_iter_err(cx, tier):
                               [f"{fn.file}:{line} {desc}"]))
             r.sample({"fn": cx.label(fn), "source": desc, "line": line, "evidence": ev or "none"}, limit=25)
     r.analysed = {"functions_with_outputs": n_fn, "output_sources": n_src}
-    r.floor("iterator output sources", n_src, 60)
+    r.floor("iterator output sources", n_src, 45)
     return r
 
 
@@ -382,7 +382,7 @@ def rule_iter_lazy(cx, tier):
             if "core_lib::iterator" in fn.name or "core_lib::string::iterators" in fn.name or "step_to" in fn.name:
                 ctors.append(fn)
     r.analysed = {"iterator_types": len(iter_types), "constructors": len(ctors)}
-    r.floor("adaptor constructors", len(ctors), 20)
+    r.floor("adaptor constructors", len(ctors), 15)
     for fn in ctors:
         r.instances += 1
         r.nontrivial += 1
@@ -449,10 +449,17 @@ def rule_pull_one(cx, tier):
             p = op_place(c.args[0])
             if p is None:
                 continue
-            name = sym.canon(p[0], [])
-            if not name.startswith("self.") and not name.startswith("arg1."):
+            # the field of self the receiver is (a binding of), also through named locals (`if let Some(a) = &mut self.a`)
+            from .common import self_field_root
+            fs = self_field_root(cx.du(fn), p[0])
+            if not fs and p[0] == 1:
+                fs = place_fields(p)
+            if not fs:
+                name = sym.canon(p[0], [])
+                fs = name.split(".")[1:] if name.startswith(("self.", "arg1.")) else None
+            if not fs:
                 continue
-            pulls.append((name.split(".", 1)[1].split(".")[0], c))
+            pulls.append((fs[0], c))
         fields = {f for f, _ in pulls}
         if len(fields) < 2:
             continue
